@@ -27,6 +27,8 @@ def run(ctx) -> None:
     for rid, text in [
         ("C13.R1-snapshot-before-launch", "self.kill() in the decision block is guarded by a snapshot of _producers_are_finished taken "
                                           "before the task is generated (or by _suicide), never by the live flag"),
+        ("C13.R8-stop-needs-execution", "inside the decision (producers were finished before this pass started) the engine stops only "
+                                        "after this pass executed a task, or because no retries are left, or because the kill timer fired"),
         ("C13.R2-progress", "every pass through the decision block calls kill() or decrements repeatRetries; the ==0 test precedes "
                             "the decrement; repeatRetries has no other writer; default is 3"),
         ("C13.R3-consume-before-execute", "taskGenerator is called only when self.consume and (new output or no producers); _consume is "
@@ -119,6 +121,32 @@ def run(ctx) -> None:
         ctx.ob("C13.R1-snapshot-before-launch", etc, False,
                "no local snapshot of self._producers_are_finished is taken in EngineTaskController",
                construct="snapshot = self._producers_are_finished (missing)")
+
+    # ---------------- R8 ------------------------------------------------------------------------------
+    # "this pass executed": locals set to True only where every onward path generates the task
+    exec_flags = {}
+    for n in cfg.nodes:
+        if n.kind == "stmt" and isinstance(n.ast, ast.Assign) and len(n.ast.targets) == 1 and isinstance(n.ast.targets[0], ast.Name) \
+                and isinstance(n.ast.value, ast.Constant) and n.ast.value.value is True:
+            exec_flags.setdefault(n.ast.targets[0].id, []).append(n)
+    exec_flags = {k: v for k, v in exec_flags.items()
+                  if all(cfg.every_path_from_passes(d, gens, exits=[cfg.exit], ignore_labels=("exc",)) for d in v)}
+    exec_tests = match.test_nodes(cfg, lambda t: "T" if isinstance(t, ast.Name) and t.id in exec_flags else None)
+    zero_t = match.test_nodes(cfg, lambda t: "T" if (match.compare_parts(t) and "repeatRetries" in source.src(match.compare_parts(t)[0])
+                                                     and isinstance(match.compare_parts(t)[1], (ast.Eq, ast.LtE))
+                                                     and isinstance(match.compare_parts(t)[2], ast.Constant)
+                                                     and match.compare_parts(t)[2].value == 0) else None)
+    ctx.ob("C13.R8-stop-needs-execution", etc, bool(exec_flags),
+           "a local flag records that this pass generated a task (%s)" % sorted(exec_flags) if exec_flags else
+           "no local flag records whether this pass executed a task", construct="did-execute flag")
+    for k in kills:
+        ok = bool(exec_tests) and match.only_via_edges_consistent(cfg, k, exec_tests + zero_t + suicide_tests, stable)
+        ctx.ob("C13.R8-stop-needs-execution", k.ast, ok,
+               "this stop is taken only after an execution in this pass, with no retries left, or on the kill timer" if ok else
+               "the engine can stop on a pass that did not execute anything although retries are left and no kill timer fired: a "
+               "stale 'no new output' answer (output or notification landing between the check and the snapshot, NFS lag) then "
+               "ends the observer without an execution that began after the producers' last output",
+               construct=short(k.ast) + " <- executed | retries==0 | suicide")
 
     # ---------------- R7 ------------------------------------------------------------------------------
     # paths with lastAction == False: the monitor was not cancelled yet, so nobody else will stop the engine
